@@ -422,6 +422,46 @@ let () =
                   (pr_arts d) (if d.junk then 1 else 0) (Stdlib.String.concat ";" net))
        | ["crashop"] -> analyse := `Crash
        | ["failop"] -> analyse := `Fail
+       | "op" :: (("cinit" | "initbadutf8" | "freenull" | "updatebadch" | "checkbadch") as k) :: rest ->
+           (* C-level edge cases: the wrappers of c_api/mod.rs (CApi.cstep) with NULL / ill-formed UTF-8 arguments *)
+           let b = bytes_of_ostring !base_blob in
+           let cst c = let ((w', x), l) = cstep sha sigok zdec b !w c in (w := w'; (x, l)) in
+           let pr_c = function
+             | KBool v -> if v then "true" else "false"
+             | KNum x -> decimal_of_n x
+             | KPath None -> "null" | KPath (Some x) -> "path:" ^ decimal_of_n x
+             | KUnit -> "unit"
+             | KResult (z, m) -> string_of_int (int_of_z z) ^ (if m then "" else ":nomsg") in
+           let cs_of c good = (match c with 'n' -> CNull | 'b' -> CBadUtf8 | _ -> CStr good) in
+           let e = cstring_of "" in
+           let (outs, l) = (match k, rest with
+             | "cinit", [r; y; spec] ->
+                 let yaml = (match parse_op ["init"; r; y; "t"] with OInit (_, yv, _) -> yv | _ -> YBad) in
+                 let paths = (match spec.[4] with 'e' -> [] | c -> [cs_of c e]) in
+                 let ps = if spec.[0] = 'n' then None
+                   else Some { cp_rel = cs_of spec.[1] (cstring_of (str_tok r)); cp_storage = cs_of spec.[2] e;
+                               cp_cache = cs_of spec.[3] e; cp_paths = paths } in
+                 let c = CInit (ps, cs_of spec.[5] e, yaml) in
+                 (match c with CInit _ -> last_init := Some (parse_op ["init"; r; y; (if spec = "oooooo" then "t" else "f")]) | _ -> ());
+                 let (x, l) = cst c in (pr_c x, l)
+             | "initbadutf8", [] ->
+                 let y = YOk (cstring_of "x", None, None, None) in
+                 let mk rel = Some { cp_rel = rel; cp_storage = CStr e; cp_cache = CStr e; cp_paths = [CStr e] } in
+                 let (a, _) = cst (CInit (mk CBadUtf8, CStr e, y)) in
+                 let (b', _) = cst (CInit (None, CStr e, y)) in
+                 (pr_c a ^ "," ^ pr_c b', [])
+             | "freenull", [] ->
+                 let _ = cst (CFreeString true) in let (x, l) = cst (CFreeUpdateResult true) in (pr_c x, l)
+             | "updatebadch", [] -> let (x, l) = cst (CUpdateWithResult (CBadUtf8, None, None)) in (pr_c x, l)
+             | "checkbadch", [] -> let (x, l) = cst (CCheck (CBadUtf8, None)) in (pr_c x, l)
+             | _ -> failwith ("bad C-level op: " ^ line)) in
+           incr idx;
+           Hashtbl.replace snaps_pj !idx !w.w_disk.pj;
+           Hashtbl.replace snaps_sj !idx !w.w_disk.sj;
+           let d = !w.w_disk in
+           let line = Printf.sprintf "out=%s sj=%s pj=%s arts=%s junk=%d net=%s" outs (pr_sj d.sj) (pr_pj d.pj)
+               (pr_arts d) (if d.junk then 1 else 0) (Stdlib.String.concat ";" (List.map pr_net l)) in
+           print_endline (if !dls_on then line ^ " dls=" ^ pr_dls !cur_dls else line)
        | "op" :: rest ->
            (* the three result-less entry points of the C API are the same calls with the answer dropped:
               shorebird_update() / shorebird_start_update_thread() = update(None), shorebird_check_for_update() = check(None) *)
